@@ -199,7 +199,7 @@ fn replay(dir: &str) -> i32 {
     let prop = doc["property"].as_str().unwrap_or("?").to_string();
     let res = pool::on_fresh_thread(1, || match case["engine"].as_str().unwrap_or("") {
         "c17" => engines::c17::replay(case),
-        "c13" => engines::c13::replay(case),
+        "c13" | "c13-values" => engines::c13::replay(case),
         "faults" => engines::faults::replay(case),
         "c02" => engines::c02::replay(case),
         "c12" => engines::c12::replay(case),
